@@ -99,6 +99,7 @@ static const char* K_SPHERE    = "C17:sphere-only-structure-accepted-in-Rn";    
 static const char* K_EMPTYLAG  = "C17:ModelOptimSillsVario-empty-lag-overflow";                // D14
 static const char* K_NODD      = "C17:model_fitting_sills-unallocated-dd";                     // D15
 static const char* K_NOEXPAND  = "C17:constant-sill-not-expanded";                             // D16
+static const char* K_STALE     = "C17:vmap-fit-uses-options-of-previous-fit";                  // stale file-static OPTVAR in vmap_auto_fit
 static const char* K_MATERN    = "C17:matern-large-third-parameter-gives-nan";                 // D12 = D13
 static std::string ROOTKEY;
 struct KCtx
@@ -254,6 +255,7 @@ struct Cfg
   bool contradictory = false;
   // classes of requests that the library documents (messerr) as rejected
   std::string expectFail; // "" when the request is acceptable
+  bool nvarDrawn = false;
   bool useCovIndices = false;
 };
 
@@ -712,7 +714,11 @@ static void drawOptions(Rng& r, Cfg& g)
   g.keepIntstr    = r.coin(0.10);
   g.flagIntrinsic = r.coin(0.02);
   if (AVOID_FLAG_INTRINSIC) g.flagIntrinsic = false;
+  // flag_intrinsic together with Goulard switched off does not crash (the sills are never fitted) but leaves the flag in
+  // the file-static OPTVAR of model_auto.cpp, which the next fitFromVMap of the process then obeys (open finding
+  // C17:vmap-fit-uses-options-of-previous-fit, scripted case 15): not drawn at random, a case must not depend on its predecessors
   g.goulard       = !r.coin(0.12);
+  if (g.flagIntrinsic) g.goulard = true;
   // Option_AutoFit
   g.wmode     = r.coin(0.4) ? 2 : r.irange(0, 3);
   // maxiter: the default (1000) costs up to minutes per fit under ASan when foxleg creeps; it is kept for a quarter of
@@ -737,6 +743,7 @@ static Cfg drawCfg(Rng& r, bool thorough)
   if (g.src == SRC_VMAP) g.ndim = 2;
   p      = r.u01();
   g.nvar = p < 0.55 ? 1 : (p < 0.85 ? 2 : 3);
+  g.nvarDrawn = true;
   if (g.src == SRC_VMAP && r.coin(0.8)) g.nvar = 1; // nvar > 1 cannot be fitted from a variogram map at all (see report)
   g.ndir = g.ndim == 1 ? 1 : r.irange(1, 4);
   g.patho = r.coin(0.45) ? P_NONE : r.irange(1, NPATHO - 1);
@@ -748,6 +755,9 @@ static Cfg drawCfg(Rng& r, bool thorough)
   drawTypes(r, g);
   drawConstraints(r, g);
   g.useCovIndices = r.coin(0.3);
+  // multivariate fits run Goulard (up to maxiter sweeps) inside every foxleg evaluation: with the default maxiter = 1000
+  // one 3-D bivariate case exceeded 600 CPU seconds under ASan; the default is kept for monovariate cases only
+  if (g.nvar >= 2) g.maxiter = std::min(g.maxiter, 100);
   // rejected requests (the library's own preconditions, each with a messerr in model_auto.cpp)
   if (g.expectFail.empty() && !hasExotic(g))
   {
@@ -1388,6 +1398,19 @@ static void fitAndCheck(Rng& r, KCtx c, Cfg& g, Vario* vario, DbGrid* dbmap, dou
     if (st != 0) return;
   }
 
+  // case hygiene: a fit with flag_intrinsic that is not aborted leaves the flag in the file-static OPTVAR (see K_STALE);
+  // a nugget-only fit with default options overwrites it when this case ends (whatever way), so that the next cases of
+  // the worker do not depend on this one
+  struct Hygiene
+  {
+    bool on; Vario* v; int nvar, ndim;
+    ~Hygiene()
+    {
+      if (!on) return;
+      try { std::unique_ptr<Model> tmp(Model::createFromEnvironment(nvar, ndim)); (void)tmp->fit(v, {ECov::NUGGET}); } catch (...) {}
+    }
+  } hygiene{g.flagIntrinsic && g.src != SRC_VMAP && vario != nullptr, vario, g.nvar, g.ndim};
+
   std::unique_ptr<Model> model(Model::createFromEnvironment(g.nvar, g.ndim));
   int err = 0;
   try
@@ -1450,7 +1473,7 @@ static void fitAndCheck(Rng& r, KCtx c, Cfg& g, Vario* vario, DbGrid* dbmap, dou
 // finding (reports/C17_open_findings.json), through the same fit-and-validate code as the random cases, so that every
 // open key is reached in every run of both tiers and the set of failing keys does not depend on VERIF_SEED.
 // ------------------------------------------------------------------------------------------------
-static const int NSCRIPT = 16;
+static const int NSCRIPT = 17;
 static void setDirs(Cfg& g, int ndir, double angref)
 {
   g.ndir = ndir;
@@ -1558,6 +1581,7 @@ static void scripted(int idx, Rng& rs, Ctx& c)
       g.cons.push_back({EConsElem::PARAM, 0, 0, 0, EConsType::LOWER, 400.}); // admissible: getParMax() = 1000
       g.consClass = "items";
       break;
+    case 15: name = "stale-options-in-vmap-fit"; g.types = {ECov::NUGGET, ECov::SPHERICAL}; break;
     default:
       name = "control-plain-fit"; g.types = {ECov::NUGGET, ECov::SPHERICAL}; break;
   }
@@ -1592,6 +1616,27 @@ static void scripted(int idx, Rng& rs, Ctx& c)
     (void)m1->fit(v1.get(), {ECov::SPHERICAL});
     defineDefaultSpace(ESpaceType::RN, g.ndim);
   }
+  if (idx == 15)
+  {
+    // a monovariate fit with flag_intrinsic and Goulard off completes; the following, unrelated fitFromVMap aborts
+    int nx = 10;
+    VectorDouble z(nx * nx);
+    for (int i = 0; i < nx * nx; i++) z[i] = std::sin(0.7 * (i % nx)) + std::cos(0.45 * (i / nx)) + 0.1 * rs.normal();
+    std::unique_ptr<DbGrid> grid(DbGrid::create(VectorInt(2, nx), VectorDouble(2, 10.)));
+    grid->addColumns(z, "z1", ELoc::Z, 0);
+    std::unique_ptr<DbGrid> dbmap(db_vmap(grid.get(), ECalcVario::VARIOGRAM, VectorInt(2, 4)));
+    if (!dbmap) throw SkipCase{"vmap-compute-failed"};
+    std::string what;
+    int st = runInChild([&]() {
+      Option_VarioFit o1; o1.setFlagIntrinsic(true); o1.setFlagGoulardUsed(false);
+      std::unique_ptr<Model> m1(Model::createFromEnvironment(1, 2));
+      (void)m1->fit(vario.get(), g.types, Constraints(), o1);
+      std::unique_ptr<Model> m2(Model::createFromEnvironment(1, 2));
+      (void)m2->fitFromVMap(dbmap.get(), {ECov::SPHERICAL});
+    }, 300., what);
+    c.check("no-crash", K_STALE, st == 0, st, 0, what);
+    return;
+  }
   if (sillApi >= 0)
     sillsCase(rs, c, g, vario.get(), gmax, sillApi, sillConst, sillExpand);
   else
@@ -1603,7 +1648,7 @@ static void run_case_inner(Rng& r, Ctx& c);
 // CPU watchdog: a case that burns more than CASE_CPU_BUDGET seconds of CPU aborts the worker with an assertion-like
 // message, which the driver turns into the key "crash:assert:C17 case exceeded its CPU budget". The verdict on a hang
 // therefore rests on CPU time; the wall-clock watchdog of the driver (timeout_case) is only a distant fallback.
-static const int CASE_CPU_BUDGET = 600; // the slowest case observed on the unchanged tree costs ~90 CPU seconds
+static const int CASE_CPU_BUDGET = 900; // the slowest case observed on the unchanged tree (with the generator's iteration caps) costs ~90 CPU seconds
 static void cpuWatchdog(int)
 {
   static const char msg[] = "c17_fit: Assertion `C17 case exceeded its CPU budget' failed.\n";
